@@ -1358,6 +1358,9 @@ package bigbuff
 //@ func (*ChanPubSub).markBroken
 //@   props C07
 //@   requires factory : x != nil && x.broken != nil && x.pongC != nil
+//@   # afterwards the instance is (observably) broken and every waiter has been woken under the pong lock
+//@   ensures broken : closed(x.broken)
+//@   at-call (*sync.Cond).Broadcast#0 wake : heldW(x.pongC)
 
 //@ func (*ChanPubSub).sanityCheckSubscribersDelta
 //@   maypanic
@@ -1390,6 +1393,11 @@ package bigbuff
 //@   ensures delivered : icalls("(*ChanCaster).Send") == 1 ==> sent == i64(ilast("(*ChanCaster).Send", 0)) && icalls("(*ChanCaster).Add") == 1
 //@   ensures once : icalls("(*ChanCaster).Send") <= 1
 //@   ensures notbroken : icalls("(*ChanPubSub).markBroken") == 0
+//@   # the state-invariant panic of Send fires only when the caster reports a count different from the one just added
+//@   # (that this cannot happen is the protocol argument M7, not a per-call fact); the count read is sanity-checked as an
+//@   # inspection (delta 0)
+//@   at-panic #0 mismatch : ilast("(*ChanCaster).Add", 0) != i64(subscribers)
+//@   at-call (*ChanPubSub).sanityCheckSubscribersDelta#0 inspect0 : arg2 == 0 && arg1 == subscribers
 //@   ensures acked : sent != 0 ==> x.pongN == 0
 //@   at-call (*ChanCaster).Add#0 counted : heldW(x.sendMu) && heldW(x.sendingMu) && arg1 == i64(apre(1)) && arg1 >= 1 && arg1 <= 2147483647
 //@   at-call (*ChanCaster).Send#0 exclusive : heldW(x.sendMu) && heldW(x.sendingMu) && arg1 == value
@@ -1409,13 +1417,17 @@ package bigbuff
 //@   ensures changed : delta != 0 ==> atomics() == 1 && aop(0) == "Add" && apost(0) == apre(0) + i32(delta) && subscribers == i64(apost(0))
 //@   ensures notbroken : icalls("(*ChanPubSub).markBroken") == 0
 //@   at-call (*ChanPubSub).addSubscribers>(*sync/atomic.Int32).Add#0 locked : delta > 0 ==> heldR(x.sendingMu)
-//@   at-call (*ChanCaster).Add#1 absorb : arg1 == delta && delta < 0 && !ok && !held(x.sendingMu)
+//@   at-call (*ChanCaster).Add#1 absorb : arg1 == delta && delta < 0 && !ok && !held(x.sendingMu) && ilast("(*ChanCaster).Add", 0) != 0
+//@   at-call (*ChanCaster).Add#0 probe : arg1 == 0
+//@   at-call (*ChanPubSub).sanityCheckSubscribersDelta#0 inspect0 : arg2 == 0
+//@   at-call (*ChanPubSub).sanityCheckSubscribersDelta#1 joined : arg2 == delta && arg1 == subscribers
+//@   at-call (*ChanPubSub).sanityCheckSubscribersDelta#2 left : arg2 == delta && arg1 == subscribers
 //@   ensures direct : delta < 0 && ok ==> icalls("(*ChanCaster).Add") == 0 || true
 
 //@ func (*ChanPubSub).SubscribeContext
 //@   props C06 C07
 //@   requires recv : x != nil
-//@   at-call context.AfterFunc#0 subscribed : icalls("(*ChanPubSub).Subscribe") == 1 && boundname(arg1) == "(*ChanPubSub).Unsubscribe"
+//@   at-call context.AfterFunc#0 subscribed : icalls("(*ChanPubSub).Subscribe") == 1 && boundname(arg1) == "(*ChanPubSub).Unsubscribe" && arg0 != nil && (ctx != nil ==> arg0 == ctx)
 //@   ensures one : icalls("(*ChanPubSub).Subscribe") == 1
 
 //@ func (*ChanPubSub).SubscribeContext$1
@@ -1435,4 +1447,8 @@ package bigbuff
 
 //@ func NewChanPubSub
 //@   props C06 C07
+//@   mode int
+//@   panics nilchan : c == nil
+//@   panics buffered : c != nil && chancap(c) != 0
+//@   nopanic valid : c != nil && chancap(c) == 0
 //@   ensures factory : ret != nil && ret.broken != nil && ret.pongC != nil && !closed(ret.broken) && ret.pongN == 0 && ret.ping.C == c
